@@ -16,6 +16,10 @@ set, every pool, every configuration section and every concrete parser (unbounde
   C09_select_explicit      an explicit instance that covers always beats the lazily configured feeds
   C09_match_history_independent   a sequence of match() calls on ONE importer (lru_cache state) answers every request with
                            the single-shot answer: selection is a function of (pool, statement) only
+  C09_memo_transparent / C09_memo_by_statement / C09_match_cache_is_memo   the match cache is a memo; keyed by the statement
+                           itself it is transparent for every history; C09_memo_coarse_key_counterexample: keyed by `repr` it is not
+  C09_fault_selected / _raised / _missing / _healthy / _touched / _history_independent   pools whose lazily configured members may
+                           fail to come up: only the members up to the first decisive one matter, nothing below it is touched
   C09_resolves_iff_tables / C09_parse_error / C09_resolves_covers   the source skeleton of the parser
   C09_parser_ok / C09_parser_reports / C09_parser_no_report         the parser machine, any parser: it gets through only if every
                            table read is advertised; the unprovisioned source it reports is the first unadvertised table read;
@@ -41,6 +45,7 @@ import ForML.Lemmas.C09
 import ForML.Lemmas.C09Conf
 import ForML.Model.MatcherParser
 import ForML.Lemmas.C09Parser
+import ForML.Lemmas.C09Memo
 
 namespace ForML.Matcher
 
@@ -601,6 +606,216 @@ theorem C09_multi_missing (members : List Member) (tagged : List (Nat × Slot)) 
       exact hall j g ((mem_poolMulti h (j, g)).mp hz)
     simp [this]
 
+/-! ### the match cache is a transparent memo — as long as it is keyed by the statement itself -/
+
+/-- A memo keyed by `key statement` answers every history on which `key` is injective exactly like the function it
+memoises (an exception is not remembered, hence recomputed). -/
+theorem C09_memo_transparent {κ ε α : Type} [DecidableEq κ] (key : Source → κ) (f : Source → Except ε α)
+    (ss : List Source) (hinj : ∀ a ∈ ss, ∀ b ∈ ss, key a = key b → a = b) : memoSeq key f ss = ss.map f :=
+  memoSeqFrom_transparent key f ss [] hinj (fun _ h => by cases h)
+
+/-- forml's key is the statement itself (`functools.lru_cache`): transparent for EVERY history, whatever is memoised -/
+theorem C09_memo_by_statement {ε α : Type} (f : Source → Except ε α) (ss : List Source) :
+    memoSeq id f ss = ss.map f :=
+  C09_memo_transparent id f ss (fun _ _ _ _ h => h)
+
+/-- the importer's cache (`matchSeq`) is that memo -/
+theorem C09_match_cache_is_memo (pool : Pool) (ss : List Source) :
+    matchSeq pool ss = memoSeq id (importerMatch pool) ss := by
+  rw [C09_match_history_independent, C09_memo_by_statement]
+
+/-- A key as coarse as `repr(statement)` (a table shows as its name, not its schema) is NOT transparent: two catalog
+versions of `Customer`, each served by its own feed — the second request gets the feed of the first. -/
+theorem C09_memo_coarse_key_counterexample :
+    ¬ ∀ (key : Source → String) (pool : Pool) (ss : List Source),
+        memoSeq key (importerMatch pool) ss = ss.map (importerMatch pool) := by
+  intro h
+  have h1 := h nameKey
+    [⟨.fin 2, [.table "Customer" [("id", .integer)]]⟩, ⟨.fin 2, [.table "Customer" [("id", .integer), ("segment", .string)]]⟩]
+    [.table "Customer" [("id", .integer)], .table "Customer" [("id", .integer), ("segment", .string)]]
+  revert h1
+  decide
+
+/-! ### pools whose lazily configured members may fail to come up: only the members up to the first decisive one matter -/
+
+theorem outcomeOf_selected (fails : Nat → Option String) (o : Option (Nat × Slot)) (i : Nat) :
+    outcomeOf fails o = .selected i ↔ ∃ x, o = some (i, x) ∧ fails i = none := by
+  cases o with
+  | none => simp [outcomeOf]
+  | some p =>
+    obtain ⟨j, x⟩ := p
+    cases hf : fails j with
+    | some e =>
+      simp only [outcomeOf, hf]
+      constructor
+      · intro h; cases h
+      · rintro ⟨y, hy, hi⟩
+        simp only [Option.some.injEq, Prod.mk.injEq] at hy
+        rw [← hy.1, hf] at hi
+        cases hi
+    | none =>
+      simp only [outcomeOf, hf, Outcome.selected.injEq]
+      constructor
+      · rintro rfl; exact ⟨x, rfl, hf⟩
+      · rintro ⟨y, hy, _⟩
+        simp only [Option.some.injEq, Prod.mk.injEq] at hy
+        exact hy.1
+
+theorem outcomeOf_raised (fails : Nat → Option String) (o : Option (Nat × Slot)) (e : String) :
+    outcomeOf fails o = .raised e ↔ ∃ i x, o = some (i, x) ∧ fails i = some e := by
+  cases o with
+  | none => simp [outcomeOf]
+  | some p =>
+    obtain ⟨j, x⟩ := p
+    cases hf : fails j with
+    | some e' =>
+      simp only [outcomeOf, hf, Outcome.raised.injEq]
+      constructor
+      · rintro rfl; exact ⟨j, x, rfl, hf⟩
+      · rintro ⟨i, y, hy, h⟩
+        simp only [Option.some.injEq, Prod.mk.injEq] at hy
+        rw [← hy.1, hf] at h
+        exact Option.some.inj h
+    | none =>
+      simp only [outcomeOf, hf]
+      constructor
+      · intro h; cases h
+      · rintro ⟨i, y, hy, h⟩
+        simp only [Option.some.injEq, Prod.mk.injEq] at hy
+        rw [← hy.1, hf] at h
+        cases h
+
+/-- the pool as `Importer.__init__` sees it (priorities are known without bringing a feed up) -/
+def FPool.slots (pool : FPool) : Pool := pool.map FSlot.slot
+
+/-- member `j` ends the scan: it fails to come up, or it covers -/
+abbrev FPool.ends (pool : FPool) (s : Source) (j : Nat) (y : Slot) : Bool := ForML.Matcher.decisive pool.fails s (j, y)
+
+/-- `match` returns member `i` iff `i` comes up and covers, and every other member that fails to come up or covers is
+iterated AFTER `i` (lower priority, or the same priority and constructed later).  Nothing is said — nothing matters —
+about what the members after `i` are. -/
+theorem C09_fault_selected (pool : FPool) (s : Source) (i : Nat) :
+    (matchFault pool s).1 = .selected i ↔
+      ∃ x, pool.slots[i]? = some x ∧ pool.fails i = none ∧ covers x.sources s = true ∧
+        ∀ (j : Nat) (y : Slot), pool.slots[j]? = some y → pool.ends s j y = true → j = i ∨ before (i, x) (j, y) := by
+  unfold matchFault
+  rw [scan_eq_find, outcomeOf_selected]
+  constructor
+  · rintro ⟨x, hfind, hfail⟩
+    obtain ⟨hm, hd, hall⟩ := (find?_sorted before before_asymm _ (pairwise_order _) _ _).mp hfind
+    refine ⟨x, (mem_order _ (i, x)).mp hm, hfail, ?_, ?_⟩
+    · simpa [decisive, hfail] using hd
+    · intro j y hj hdj
+      rcases hall (j, y) ((mem_order _ (j, y)).mpr hj) hdj with h | h
+      · exact Or.inl (congrArg Prod.fst h)
+      · exact Or.inr h
+  · rintro ⟨x, hx, hfail, hc, hall⟩
+    refine ⟨x, (find?_sorted before before_asymm _ (pairwise_order _) _ _).mpr
+      ⟨(mem_order _ (i, x)).mpr hx, by simp [decisive, hc], ?_⟩, hfail⟩
+    rintro ⟨j, y⟩ hw hd
+    have hj := (mem_order _ (j, y)).mp hw
+    rcases hall j y hj hd with rfl | h
+    · simp only at hj
+      have : pool.slots[j]? = some y := hj
+      rw [hx] at this
+      cases this
+      exact Or.inl rfl
+    · exact Or.inr h
+
+/-- `match` raises what bringing member `i` up raises iff every other member that fails or covers is iterated after
+`i`: a fault ABOVE the first covering feed surfaces, a fault below it never does. -/
+theorem C09_fault_raised (pool : FPool) (s : Source) (e : String) :
+    (matchFault pool s).1 = .raised e ↔
+      ∃ i x, pool.slots[i]? = some x ∧ pool.fails i = some e ∧
+        ∀ (j : Nat) (y : Slot), pool.slots[j]? = some y → pool.ends s j y = true → j = i ∨ before (i, x) (j, y) := by
+  unfold matchFault
+  rw [scan_eq_find, outcomeOf_raised]
+  constructor
+  · rintro ⟨i, x, hfind, hfail⟩
+    obtain ⟨hm, _, hall⟩ := (find?_sorted before before_asymm _ (pairwise_order _) _ _).mp hfind
+    refine ⟨i, x, (mem_order _ (i, x)).mp hm, hfail, ?_⟩
+    intro j y hj hdj
+    rcases hall (j, y) ((mem_order _ (j, y)).mpr hj) hdj with h | h
+    · exact Or.inl (congrArg Prod.fst h)
+    · exact Or.inr h
+  · rintro ⟨i, x, hx, hfail, hall⟩
+    refine ⟨i, x, (find?_sorted before before_asymm _ (pairwise_order _) _ _).mpr
+      ⟨(mem_order _ (i, x)).mpr hx, by simp [decisive, hfail], ?_⟩, hfail⟩
+    rintro ⟨j, y⟩ hw hd
+    have hj := (mem_order _ (j, y)).mp hw
+    rcases hall j y hj hd with rfl | h
+    · simp only at hj
+      have : pool.slots[j]? = some y := hj
+      rw [hx] at this
+      cases this
+      exact Or.inl rfl
+    · exact Or.inr h
+
+/-- the missing-source error iff every member comes up and none covers -/
+theorem C09_fault_missing (pool : FPool) (s : Source) :
+    (matchFault pool s).1 = .missing ↔
+      ∀ (j : Nat) (y : Slot), pool.slots[j]? = some y → pool.ends s j y = false := by
+  unfold matchFault
+  rw [scan_eq_find]
+  constructor
+  · intro h j y hj
+    cases hf : (order (pool.map FSlot.slot)).find? (decisive pool.fails s) with
+    | none =>
+      have := List.find?_eq_none.mp hf (j, y) ((mem_order _ (j, y)).mpr hj)
+      simpa [FPool.ends] using this
+    | some p =>
+      rw [hf] at h
+      unfold outcomeOf at h
+      cases hp : pool.fails p.1 <;> simp [hp] at h
+  · intro h
+    have : (order (pool.map FSlot.slot)).find? (decisive pool.fails s) = none := by
+      rw [List.find?_eq_none]
+      intro z hz
+      have := h z.1 z.2 ((mem_order _ z).mp hz)
+      simpa [FPool.ends] using this
+    rw [this]; rfl
+
+/-- with every member healthy this is `Importer.match` of the plain pool (to which `C09_select` etc. apply) -/
+theorem C09_fault_healthy (pool : FPool) (s : Source) (h : ∀ i, pool.fails i = none) :
+    (matchFault pool s).1 = match importerMatch pool.slots s with
+      | .ok i => .selected i
+      | .error _ => .missing := by
+  unfold matchFault
+  rw [scan_healthy _ _ _ (fun x _ => h x.1)]
+  unfold importerMatch select FPool.slots
+  cases (order (pool.map FSlot.slot)).find? (fun p => covers p.2.sources s) <;> rfl
+
+/-- Laziness: every member `match` touches (brings up) is the one that ends the scan or is iterated before every
+member that could end it — a member below the selected feed (or below the fault that surfaced) is never touched. -/
+theorem C09_fault_touched (pool : FPool) (s : Source) (j : Nat) (hj : j ∈ (matchFault pool s).2) :
+    ∃ x, pool.slots[j]? = some x ∧
+      ∀ (k : Nat) (y : Slot), pool.slots[k]? = some y → pool.ends s k y = true → k = j ∨ before (j, x) (k, y) := by
+  unfold matchFault at hj
+  obtain ⟨pre, ⟨j', x⟩, post, hl, hx, hpre⟩ := scan_touched _ _ _ _ hj
+  simp only at hx
+  subst hx
+  have hmem : (j', x) ∈ order (pool.map FSlot.slot) := by rw [hl]; simp
+  refine ⟨x, (mem_order _ (j', x)).mp hmem, ?_⟩
+  intro k y hk hd
+  have hk' : (k, y) ∈ order (pool.map FSlot.slot) := (mem_order _ (k, y)).mpr hk
+  rw [hl] at hk'
+  rcases List.mem_append.mp hk' with h | h
+  · have := hpre (k, y) h
+    simp [FPool.ends] at hd
+    simp [hd] at this
+  · rcases List.mem_cons.mp h with h | h
+    · exact Or.inl (congrArg Prod.fst h)
+    · right
+      have hp := pairwise_order (pool.map FSlot.slot)
+      rw [hl] at hp
+      exact (List.pairwise_cons.mp (List.pairwise_append.mp hp).2.1).1 (k, y) h
+
+/-- … and a history of requests on such a pool is answered request by request (memo by the statement itself; a raised
+exception is not remembered; bringing a feed up is deterministic) -/
+theorem C09_fault_history_independent (pool : FPool) (ss : List Source) :
+    memoSeq id (fun s => (matchFault pool s).1.toExcept) ss = ss.map (fun s => (matchFault pool s).1.toExcept) :=
+  C09_memo_by_statement _ ss
+
 /-! ### non-vacuity (tests on concrete objects, not part of the claim) -/
 
 private def qAB : Source := .query jAB .nil .none .nil .none .nil none
@@ -668,5 +883,19 @@ example : matchArgsLegacy [.reference "a" (some secA) (fun _ => [tA, tB])] qAB =
 -- through `setup.Feed.resolve`: equal priorities are ordered by the provider reference
 example : selectMulti [.conf "a" (some [("provider", .scalar (.text "zeta"))]) (fun _ => [tA, tB]),
     .conf "b" (some [("provider", .scalar (.text "alpha"))]) (fun _ => [tA, tB])] qAB = .ok (some 1) := by decide
+
+-- memo: keyed by the statement two catalog versions of a table are told apart, keyed by the name they are not
+private def cV1 : Source := .table "Customer" [("id", .integer)]
+private def cV2 : Source := .table "Customer" [("id", .integer), ("segment", .string)]
+example : memoSeq id (importerMatch [⟨.fin 2, [cV1]⟩, ⟨.fin 2, [cV2]⟩]) [cV1, cV2, cV1] = [.ok 0, .ok 1, .ok 0] := by decide
+example : memoSeq nameKey (importerMatch [⟨.fin 2, [cV1]⟩, ⟨.fin 2, [cV2]⟩]) [cV1, cV2, cV1] = [.ok 0, .ok 0, .ok 0] := by decide
+-- faults: below the covering feed they do not exist, above it they surface; only what was needed is touched
+example : matchFault [⟨.fin 9, .feed [tA, tB]⟩, ⟨.fin 1, .fails "ConnectionRefusedError"⟩, ⟨.fin 5, .feed [tA]⟩] qAB
+    = (.selected 0, [0]) := by decide
+example : matchFault [⟨.fin 1, .feed [tA, tB]⟩, ⟨.fin 9, .fails "ConnectionRefusedError"⟩] qAB
+    = (.raised "ConnectionRefusedError", [1]) := by decide
+example : matchFault [⟨.fin 1, .feed [tA, tB]⟩, ⟨.fin 9, .feed [tA]⟩, ⟨.inf, .feed []⟩, ⟨.fin 0, .fails "x"⟩] qAB
+    = (.selected 0, [2, 1, 0]) := by decide
+example : matchFault [⟨.fin 1, .feed [tA]⟩, ⟨.fin 9, .feed [tB]⟩] qAB = (.missing, [1, 0]) := by decide
 
 end ForML.Matcher
